@@ -113,6 +113,16 @@ def designed_histories():
                             ops=[G(first), G("st_Ricci_down4"),
                                  G("st_RicciS"), G("Einsteindown4"),
                                  G("st_Ricci_down3"), G("Kretschmann")]))
+    # matter given as fluid variables: T_mu_nu is a computed (evictable)
+    # entry; the Riemann tensor stays cached while T is evicted, then the Weyl
+    # tensor is requested
+    for ce in (1, 2, 3, 5):
+        for mid in ([], ["gammadet"], ["gammadet", "st_Riemann_uddd4"]):
+            out.append(dict(cfg=dict(cfg_fl, clear_every=ce),
+                            ops=[G("st_Riemann_down4"), G("Kretschmann")]
+                            + [G(k) for k in mid]
+                            + [G("st_Weyl_down4"), G("Weyl_Psi"),
+                               G("eweyl_u_down4")]))
     tr = dict(base, extra_inputs=["tracer"])
     for ce in (1, 2, 3):
         out.append(dict(cfg=dict(tr, clear_every=ce,
@@ -132,6 +142,26 @@ def designed_histories():
                         + [G(f) for f in FILL[:4]]
                         + [G("Momentumdown3"), G("Momentumup3"),
                            G("Momentumz_norm")]))
+    # a supplied 4-metric: the guards "gdown4 in data" are then always true,
+    # whatever was requested before
+    g4 = dict(base, extra_inputs=["gdown4x"])
+    for ce in (30, 2):
+        for first in ("gdet", "gup4", "gtt", "gdown4"):
+            out.append(dict(cfg=dict(g4, clear_every=ce),
+                            ops=[G(first), G("gdet"), G("gup4"), G("gtt"),
+                                 G("gtx"), G("gxx")]
+                            + [G(f) for f in FILL[:3]]
+                            + [G("gdet"), G("gtt"), G("gup4")]))
+    # the matter-flux reconstruction after the momentum constraint
+    # components were requested one by one
+    for ce in (30, 3):
+        out.append(dict(cfg=dict(base, clear_every=ce),
+                        ops=[G("Momentumx"), G("Momentumy"), G("Momentumz"),
+                             G("fluxup3_n_fromMom"), G("rho_n_fromHam"),
+                             G("Momentumup3"), G("fluxup3_n_fromMom")]))
+        out.append(dict(cfg=dict(base, clear_every=ce),
+                        ops=[G("Hamiltonian"), G("rho_n_fromHam"),
+                             G("fluxup3_n_fromMom"), G("Momentumz")]))
     sts = dict(op="helper", helper="s_to_st", ix="dd",
                field=dict(shape=[3, 3], const=None, modes=[dict(
                    A=[[0.5, 0.2, -0.3], [0.2, 0.4, 0.1], [-0.3, 0.1, 0.6]],
